@@ -58,7 +58,7 @@ def round_trip(chk, dm, cp, fd, through_json: bool) -> Dict[str, Any]:
     for key in ("wd-su_sh_wi", "we-su_sh_wi"):
         subs[key] = AbsObj({"OptimizedResult"}, T_min=SV(f"{key}.T_min"), T_max=SV(f"{key}.T_max"), T_min_seg=SV(f"{key}.T_min_seg"), T_max_seg=SV(f"{key}.T_max_seg"),
                            named_coeffs=SV(f"{key}.named_coeffs"), f_unc=SV(f"{key}.f_unc"))
-    orig = _Model({dm.name, "DailyModel"}, settings=settings, model=subs, error=SV("error"), baseline_timezone=SV("baseline_timezone"),
+    orig = _Model({dm.name, "DailyModel"}, settings=settings, model=subs, error={k_: SV(f"error.{k_}") for k_ in ("wRMSE", "RMSE", "MAE", "CVRMSE", "PNRMSE")}, baseline_timezone=SV("baseline_timezone"),
                   disqualification=[_Warn("dq0")], warnings=[_Warn("w0"), _Warn("w1")])
     it = Interp(step_limit=100_000)
     orig._bind_repo(chk, dm, it, stand)
@@ -73,17 +73,30 @@ def round_trip(chk, dm, cp, fd, through_json: bool) -> Dict[str, Any]:
         doc = json_pass(doc)
     built: Dict[str, Any] = {}
 
+    it2 = Interp(step_limit=100_000)
+
     def make_model(*a, **kw):
         built["args"] = (a, kw)
-        return AbsObj({dm.name, "DailyModel"}, settings=Opaque("settings-of-new-model"), warnings=[], disqualification=[])
-    it2 = Interp(step_limit=100_000)
+        # the new model carries what its own constructor creates (interpreted), so bookkeeping attributes from_dict touches exist
+        from rules.daily_errors import constructed
+        return constructed(chk, dm, it2, stand, settings=Opaque("settings-of-new-model"), warnings=[], disqualification=[])
+    def _clone(x):
+        if isinstance(x, dict):
+            return {k_: _clone(v_) for k_, v_ in x.items()}
+        if isinstance(x, list):
+            return [_clone(v_) for v_ in x]
+        return x
+    doc_in = _clone(doc)    # the reader gets its own copy: what it does to the caller's document is judged separately
     try:
-        back = Function(fd.node, ModuleEnv(chk.repo, fd.module, it2, stand), it2)(StubCall(make_model), doc)
+        back = Function(fd.node, ModuleEnv(chk.repo, fd.module, it2, stand), it2)(StubCall(make_model), doc_in)
     except InterpRaised as e:
         return {"raises": f"from_dict raises {e.exc_name} on the document the writer produced"}
     if not isinstance(back, AbsObj):
         return {"raises": "from_dict does not return the model it built"}
     diffs: Dict[str, Any] = {}
+    if _val_key(doc_in) != _val_key(doc):
+        changed = [k_ for k_ in sorted(set(doc) | set(doc_in)) if _val_key(doc.get(k_)) != _val_key(doc_in.get(k_))]
+        diffs["document-modified"] = f"from_dict modifies the document it is given (in {changed}): loading the same parsed document twice gives different models"
     # 1. the parameter record
     rp = back.__dict__.get("params")
     gd = _dump(rp) if isinstance(rp, RecObj) else None
@@ -122,7 +135,7 @@ def round_trip(chk, dm, cp, fd, through_json: bool) -> Dict[str, Any]:
     if _val_key(w_doc.get("settings")) != _val_key(_dump(settings)):
         diffs["settings-written"] = "the stored settings are not the model's own settings (self.settings.model_dump())"
     info = w_doc.get("info") if isinstance(w_doc.get("info"), dict) else {}
-    if _val_key(info.get("error")) != "error":
+    if _val_key(info.get("error")) != _val_key(orig.error):
         diffs["info.error"] = f"info.error must be the model's error record; stored {_val_key(info.get('error'))}"
     for p in problems:
         diffs.setdefault("declared", p)
@@ -153,6 +166,6 @@ def check(chk, rule, dm, cp, fd):
             rule.require(False, key, fd.where(), f"daily model: {o['raises']}")
             continue
         d = o["diffs"]
-        for part in ("params", "settings", "disqualification", "warnings", "baseline_timezone", "is_fitted", "submodels", "settings-written", "info.error", "declared"):
+        for part in ("document-modified", "params", "settings", "disqualification", "warnings", "baseline_timezone", "is_fitted", "submodels", "settings-written", "info.error", "declared"):
             rule.require(part not in d, f"{key}|{part}", fd.where() if part not in ("submodels", "settings-written", "info.error") else cp.where(),
                          f"daily model ({'through JSON' if through_json else 'dict only'}): {d.get(part, '')}", sample={"part": part, "json": through_json})
